@@ -109,6 +109,8 @@ def body(target, iterexpr, logexpr, shape, mut=None, rebind=None, indent='    ',
         w('    if n > %d:' % BUDGET)
         w('        ' + R("'budget'"))
         w('        break')
+    if isinstance(mut, dict) and not any(mut.values()):
+        mut = None
     if isinstance(mut, dict):
         w('    if n == mu or (mu < 0 and n >= -mu):')
         first = True
